@@ -71,6 +71,19 @@ def run(tier):
         tbad += len(bad)
         samples += [dict(argv=e["argv"], extra=e["extra"], status=e["o"]["status"]) for e in events[:2]]
         os.remove(r["out_path"])
+    # beyond the property: which input a run reads (Input.tla) - the machine's invariants are checked by TLC and
+    # each of its runs is a run of the binary; a deviation is reported as X:input-selection, not as a C13 violation
+    ri = core.tlc("MC_Input", "SPECIFICATION Spec\nINVARIANTS ExplicitWins SmartDefault StdinIgnoredUnlessSource DirectoryOnlyForGit "
+                  "DashCReplacesCwd NoVersionFromBadStdin EmitLine\nCHECK_DEADLOCK FALSE\n", "c13-input", workers=4, timeout=600)
+    repi = core.zv(["replay", "input", ri["out_path"]], timeout=3600)
+    core.log("  input selection (Input.tla): %d runs of the machine, %d runs of the binary, %d deviations"
+             % (ri["distinct"] // 5, repi["evaluations"], repi["mismatch_count"]))
+    if repi["evaluations"] == 0:
+        raise core.ToolError("no input-selection run generated")
+    v.add(repi["mismatches"])
+    states += ri["distinct"]
+    trans += ri["states"]
+    os.remove(ri["out_path"])
     n = 8000 if tier == "quick" else 150000
     for k in range(0, n, 8000):
         path = os.path.join(core.BUILD, "c13-rand-%d.ndjson" % k)
